@@ -59,17 +59,11 @@ var stdByName = map[string]string{
 	"template": "text/template", "big": "math/big", "hex": "encoding/hex", "log": "log", "unsafe": "unsafe",
 }
 
+// extraStd: cheap std packages loaded together with the job's packages so that a newly referenced
+// package can be imported from export data (they are dependencies of fmt/os/testing anyway).
 func extraStd() []string {
-	seen := map[string]bool{}
-	var out []string
-	for _, p := range stdByName {
-		if !seen[p] && p != "unsafe" {
-			seen[p] = true
-			out = append(out, p)
-		}
-	}
-	sort.Strings(out)
-	return out
+	return []string{"bytes", "cmp", "context", "errors", "fmt", "io", "maps", "math", "math/bits", "os", "path/filepath",
+		"reflect", "slices", "sort", "strconv", "strings", "sync", "sync/atomic", "time", "unicode", "unicode/utf8"}
 }
 
 type group struct {
@@ -96,12 +90,22 @@ func loadGroup(it Item) (*group, error) {
 		Mode: packages.NeedName | packages.NeedImports | packages.NeedDeps | packages.NeedExportFile |
 			packages.NeedFiles | packages.NeedCompiledGoFiles | packages.NeedModule,
 	}
-	pats := append(append([]string{}, it.Patterns...), extraStd()...)
-	pkgs, err := packages.Load(cfg, pats...)
+	pkgs, err := packages.Load(cfg, it.Patterns...)
 	if err != nil {
 		return nil, err
 	}
 	g := &group{byID: map[string]*packages.Package{}, byPath: map[string]*packages.Package{}, pkgs: map[string]*pkgState{}}
+	// the extra std packages are loaded separately WITHOUT tests (only their export files are
+	// needed; with Tests the go command would compile the std test packages)
+	ecfg := *cfg
+	ecfg.Tests = false
+	extras, err := packages.Load(&ecfg, extraStd()...)
+	if err != nil {
+		return nil, err
+	}
+	packages.Visit(extras, nil, func(p *packages.Package) {
+		g.byPath[p.PkgPath] = p
+	})
 	packages.Visit(pkgs, nil, func(p *packages.Package) {
 		g.byID[p.ID] = p
 		if !strings.Contains(p.ID, " [") {
